@@ -89,6 +89,41 @@ def check_helpers(ctx, f, rep, rule, which):
             for p in cps:
                 es = [q.eq_sides(c['expr']) for c in p.conds()]
                 good = good and len(es) == 1 and es[0] is not None
+        if not good:
+            # the same thing as an explicit loop with an early `return true`
+            def pred(p, seg, item):
+                calls = {c['id']: c for c in p.calls()}
+                truth = []
+                for c in seg:
+                    if c['kind'] != 'cond' or c['expr'][0] == 'discr':
+                        continue
+                    e, t = q.norm_bool(c)
+                    es = q.eq_sides(e)
+                    if es is not None:
+                        is_eq, a, b_ = es
+                        item_id = lambda v: v in (('load', ('field', ('deref', item), 'id', None), 0),
+                                                  ('ref', ('field', ('deref', item), 'id', None), False),
+                                                  ('fieldv', ('load', ('deref', item), 0), 'id', None))
+                        own = lambda v: v in (('param', 0, 2), ('load', ('deref', ('param', 0, 2)), 0))
+                        if not ((item_id(a) and own(b_)) or (item_id(b_) and own(a))):
+                            return None
+                        truth.append(('eq', t if is_eq else (None if t is None else not t)))
+                    elif e[0] == 'call' and e[1] in calls and calls[e[1]]['res'] == 'member::Member::is_active' and \
+                            q.mentions(calls[e[1]]['args'][0], lambda x: x == item):
+                        truth.append(('act', t))
+                    else:
+                        return None
+                kinds = dict(truth)
+                if any(t is None for t in kinds.values()):
+                    return None
+                if kinds.get('eq') is True and kinds.get('act') is True:
+                    return True
+                if kinds.get('eq') is False or kinds.get('act') is False:
+                    return False
+                return None
+            all_ps = [p for p in ctx.paths(f, b, 'none') if p.end == 'return']
+            good, _n = q.exists_loop(f, all_ps, q.self_field('inner'), pred)
+            good = good and all(not p.writes() for p in all_ps)
         rep.check(good, rule, b.nname, 'is_active(id) = inner.iter().any(|m| m.id == id && m.is_active())', construct='helper')
     if 'Members::iter_active' in which:
         b, ps = single_path('member::Members::iter_active')
@@ -114,7 +149,7 @@ def check_helpers(ctx, f, rep, rule, which):
         good = len(ps) == 1
         cb, e = closure_of(ps[0], 'Option::is_some_and') if good else (None, None)
         good = good and cb is not None and ps[0].ret == ('call', e['id']) and \
-            ps[0].calls()[0]['res'] == 'core::option::Option::as_ref' and ps[0].calls()[0]['args'][0] == ('ref', q.self_field('direct'), False)
+            e['args'][0][:3] == ('optref', q.self_field('direct'), False)
         if good:
             cps = ctx.paths(f, cb, 'none')
             good = len(cps) == 1 and cps[0].ret[0] == 'binop' and cps[0].ret[1] == 'Eq'
@@ -161,17 +196,41 @@ def check_helpers(ctx, f, rep, rule, which):
         for fn, callee in (('broadcast::Broadcasts::len', 'alloc::collections::BinaryHeap::len'),
                            ('broadcast::Broadcasts::is_empty', 'alloc::collections::BinaryHeap::is_empty')):
             b, ps = single_path(fn)
-            good = len(ps) == 1 and len(ps[0].calls()) == 1 and ps[0].calls()[0]['res'] == callee and \
+            good = len(ps) == 1 and len(ps[0].calls()) == 1 and \
                 ps[0].calls()[0]['args'][0] == ('ref', q.self_field('flip'), False)
+            if good:
+                c0 = ps[0].calls()[0]
+                on_flip = lambda v, name: v[0] == 'call' and v[1] == c0['id'] and c0['res'] == name
+                if fn.endswith('::len'):
+                    good = on_flip(ps[0].ret, callee)
+                else:       # is_empty() in any spelling: flip.is_empty(), flip.len() == 0, ...
+                    good = q.emptiness_value(ps[0].ret, lambda v: on_flip(v, 'alloc::collections::BinaryHeap::len'),
+                                             lambda v: on_flip(v, callee)) is True
             rep.check(good, rule, fn, 'reads the live heap (flip)', construct='helper')
     if 'serialize_member' in which:
         b = f.fn('Foca::serialize_member')
         ps = ctx.paths(f, b, 'none')
         good = bool(ps)
+        # the member is the by-value Member parameter; the codec is self.codec, read here or handed in by every caller
+        mem = [k for k in range(1, b.argc + 1) if str(b.locals[k]).startswith('member::Member<')]
+        cod = [k for k in range(1, b.argc + 1) if str(b.locals[k]).startswith('&mut ') and 'Foca<' not in str(b.locals[k])]
+        good = good and len(mem) == 1
+        codec_ok = lambda v: v == ('ref', q.self_field('codec'), True)
+        if good and cod:
+            k = cod[0]
+            codec_ok = lambda v: v in (('param', 0, k), ('ref', ('deref', ('param', 0, k)), True))
+            seen = 0
+            for cb in {c[0].nname: c[0] for c in f.callers_of(lambda n: n == 'Foca::serialize_member')}.values():
+                for cp in ctx.paths(f, cb, 'none'):
+                    for c in cp.calls():
+                        if c['res'] == 'Foca::serialize_member':
+                            seen += 1
+                            good = good and c['args'][k - 1] == ('ref', q.self_field('codec'), True)
+            good = good and seen > 0
         for p in ps:
             enc = [c for c in p.calls() if c['decl'] == 'codec::Codec::encode_member']
-            good = good and len(enc) == 1 and enc[0]['args'][1] == ('ref', ('local', 0, 2), False) and \
-                enc[0]['args'][0] == ('ref', q.self_field('codec'), True)
+            good = good and len(enc) == 1 and enc[0]['args'][1] == ('ref', ('local', 0, mem[0]), False) and \
+                codec_ok(enc[0]['args'][0])
             if p.end == 'return' and p.ret[0] == 'agg' and p.ret[3] == 'Ok' and enc:
                 # the bytes returned are the buffer the member was encoded into
                 v = p.ret[5][0]
@@ -251,3 +310,25 @@ def check_state_fields(f, rep, rule, fields):
             cs = sorted({c[0].nname for c in f.callers_of(lambda x, c_=ctor: x == c_)})
             rep.check(cs == ['Foca::with_custom_broadcast'], rule, ctor, 'constructed only by the Foca constructor',
                       construct='state-ctor-callers:' + fld, facts={'callers': cs})
+
+
+def value_or_param_satisfies(ctx, f, body, v, pred, depth=0):
+    """pred(v, body) holds for the value - or, when the value is a parameter of a private function, for the argument
+    every caller passes in that position (followed through at most three levels of private functions)."""
+    from .lib import query as q
+    w = v
+    while w[0] == 'cast':
+        w = w[2]
+    if not (w[0] == 'param' and w[1] == 0) or body.reachable or depth > 3:
+        return pred(v, body)
+    k = w[2]
+    seen = 0
+    callers = {c[0].nname: c[0] for c in f.callers_of(lambda n, nn=body.nname: n == nn)}
+    for cb in callers.values():
+        for cp in ctx.paths(f, cb, 'none'):
+            for c in cp.calls():
+                if c['res'] == body.nname:
+                    seen += 1
+                    if len(c['args']) < k or not value_or_param_satisfies(ctx, f, cb, c['args'][k - 1], pred, depth + 1):
+                        return False
+    return seen > 0
